@@ -3,6 +3,7 @@ import importlib
 import sys
 import time
 from . import smt
+smt.early_pool()
 from .spec import REGISTRY
 from .verify import verify_contract
 
@@ -24,7 +25,12 @@ def main():
             can = [r["result"] for r in res if r["name"].endswith("/canary")]
             print("   discharged %d/%d in %.2fs  canary(consistent path ends)=%d/%d" % (
                 len(res) - len(bad) - len(can), len(res) - len(can), time.time() - t0, sum(1 for x in can if x != "unsat"), len(can)))
+            import os
             seen = set()
+            if os.environ.get("PYVC_DUMP"):
+                os.makedirs(os.environ["PYVC_DUMP"], exist_ok=True)
+                for k_, r in enumerate(bad):
+                    open(os.path.join(os.environ["PYVC_DUMP"], "fail_%d.smt2" % k_), "w").write(r["text"])
             for r in bad:
                 if (r["name"], r["hash"]) in seen:
                     continue
